@@ -24,6 +24,11 @@ namespace rkcommon {
       Observable() = default;
       virtual ~Observable();
 
+      // observers are registered with one particular object: a copy starts
+      // without observers, assignment leaves both observer lists alone
+      Observable(const Observable &other);
+      Observable &operator=(const Observable &other);
+
       void notifyObservers();
 
      private:
@@ -67,6 +72,16 @@ namespace rkcommon {
     {
       for (auto *observer : observers)
         observer->observee = nullptr;
+    }
+
+    inline Observable::Observable(const Observable &other)
+        : lastNotified(other.lastNotified)
+    {
+    }
+
+    inline Observable &Observable::operator=(const Observable &)
+    {
+      return *this;
     }
 
     inline void Observable::notifyObservers()
